@@ -11,6 +11,11 @@ CHECKS = {
     text="A freezing node and a twin without freezer receive the same 17-block, five-epoch chain (transactions, an uncle, proposals, side-chain blocks at heights that become frozen); after every delivery a synchronous freeze pass runs and every getter the property names is compared for every block, transaction and live cell (store, snapshot, and after a restart). A child process is killed at every point of the first and second freeze pass (before each data write, between data and index write, before the fsync, before each database batch); the parent re-opens, compares the battery, runs the next pass (which must continue to the two-epoch threshold), extends the chain and compares again. Freeze policy (threshold, contiguity, monotonicity) is checked after every pass.",
     note="Trusted: flat world with 4-block epochs; process-crash model; answers about side-chain blocks at frozen heights are exempt; cell data is queried for live cells only.",
     design="DESIGN.md §5 C10"),
+ "C17": dict(engine="seq", category="model_checking",
+    technique="explicit-state search over operation histories on the real structures (orphan pool to the fixpoint of reachable states; in-flight table with step-wise refinement checks on the dumped state; header map with real sled backend vs BTreeMap; skip-list ancestor lookup vs parent walk)",
+    text="Orphan pool: for every labelled forest of 5 blocks over two absent roots, all sequences of insert / remove_blocks_by_parent(any node) / clean_expired are explored until no new state appears, each return value and the leader set compared with a plain-map model. In-flight table: all sequences (depth 5 quick / 6 thorough) over 3 peers x 4 blocks with a faked clock; every operation is checked as a relation between the dumped pre- and post-state, and the statement's invariants on every state. Header map: every sequence of length <=5/6 of insert/get/contains/remove over 4 keys plus spill (limit 2 items, real sled backend) against a BTreeMap. Ancestor: every (from,to) pair on chains of 300/1024 headers and from 40-block branches at fork points, with and without the main-chain shortcut, against a parent walk.",
+    note="Trusted: expiry universes give siblings the same epoch; in-flight records left behind when prune evicts an idle peer scheduler are counted, not judged; locator construction is not covered (needs a real SyncShared) and is not claimed.",
+    design="DESIGN.md §5 C17"),
  "C20": dict(engine="node", category="model_checking",
     technique="exhaustive exploration of reorg/truncate/restart histories on the real node with unique proposal ids, compared with the window computed from raw main-chain blocks; verifier agreement at every distance around the window",
     text="For two proposal windows, every history (main chain of length 1..7/10, competing branch forking at every depth 0..far+2 below the tip and overtaking, truncation to every ancestor within far+1) is executed on a real node; after every step the incrementally maintained proposal view, and the view rebuilt by a real shutdown + re-open of the data directory, are compared with the union of proposal ids (uncles included) of the main-chain blocks in the window. A second family commits a real transaction at every distance 1..far+2 from its proposal (by block or by uncle) and requires node view, verifier verdict and window rule to agree.",
